@@ -1203,6 +1203,8 @@ impl TypeChecker {
 
     // This span is wierd - is it weird?
     fn check_constraints(&mut self, span: Span, ctx: TypeCtx, a: TyID) -> TypeResult<()> {
+        #[cfg(sylt_verif)]
+        sylt_common::verif::tick();
         for (constraint, original_span) in self.find_node(a).constraints.clone().iter() {
             match constraint {
                 // It would be nice to know from where this came from
@@ -1645,6 +1647,8 @@ impl TypeChecker {
     }
 
     fn inner_copy(&mut self, old_ty: TyID, seen: &mut HashMap<TyID, TyID>) -> TyID {
+        #[cfg(sylt_verif)]
+        sylt_common::verif::tick();
         let old_ty = self.find(old_ty);
 
         if let Some(res) = seen.get(&old_ty) {
